@@ -205,7 +205,11 @@ type structDecl struct {
 	doc   []string // raw comment lines
 }
 
-func structDecls(e *Eval, fileIdx int) []structDecl {
+func structDecls(e *Eval, fileIdx int) []structDecl { return structDeclsG(e, fileIdx, false) }
+
+// structDeclsG also lists, when generic is set, the generic struct declarations (the analysis only
+// accepts those whose parameters do not appear in their fields, and the SQL target gives them a table).
+func structDeclsG(e *Eval, fileIdx int, generic bool) []structDecl {
 	abs := e.L.RootFiles[fileIdx]
 	var out []structDecl
 	for _, f := range e.L.Root.Syntax {
@@ -225,7 +229,7 @@ func structDecls(e *Eval, fileIdx int) []structDecl {
 				if !ok {
 					continue
 				}
-				if _, isSt := n.Underlying().(*types.Struct); !isSt || n.TypeParams().Len() > 0 || n.TypeArgs().Len() > 0 {
+				if _, isSt := n.Underlying().(*types.Struct); !isSt || (n.TypeParams().Len() > 0 && !generic) || n.TypeArgs().Len() > 0 {
 					continue
 				}
 				dup := false
@@ -341,7 +345,7 @@ var rePlaceholder = regexp.MustCompile(`\$(\w+)\$`)
 
 func buildSQLRef(e *Eval, enums map[*types.Named]*refEnum, unions map[*types.Named][]*types.Named) *sqlRef {
 	ref := &sqlRef{}
-	decls := structDecls(e, 0)
+	decls := structDeclsG(e, 0, true)
 	tableNames := map[string]bool{}
 	for _, d := range decls {
 		tableNames[d.named.Obj().Name()] = true
